@@ -156,3 +156,40 @@ def run(facts, rep):
             rep.ok('E7b.K4-connect-keys', inst, 'pairs combined componentwise in the same order')
         else:
             rep.violation('E7b.K4-connect-keys', inst, 'SymTngBuilder::connect no longer maps k1 + k2 to l1 + l2', where=b.where())
+
+
+def check_doubling(facts, rep):
+    """K5: build_from_half glues the half tangle T to its mirror image tau(T). Every datum of a transported cycle
+    doubles together: key k -> k + k, cobordism c -> c u tau(c), coefficient r -> r * r, and the tau key map sends
+    k1 + k2 to k2 + k1. A datum that is not doubled (e.g. the coefficient, harmless over F2 but not over F2[H])
+    leaves an inhomogeneous / wrong canonical class."""
+    root = B + 'build_from_half'
+    bodies = {k: b for k, b in facts.bodies.items() if k.startswith(root + '::{closure')}
+    if root not in facts.bodies or not bodies:
+        rep.indet('E7b.K5: build_from_half not found')
+        return
+    key_doubled = coef_squared = cob_doubled = swap = False
+    for k, b in bodies.items():
+        rep.saw(b)
+        for p in SymEx(b, max_paths=5000).run():
+            r = p.ret
+            if p.end != 'return' or r is None or r[0] != 'tuple' or len(r[1]) != 2:
+                continue
+            a, c = r[1]
+            sa, sc = sk(a), sk(c)
+            if sa == 'add(arg2, arg2)':
+                key_doubled = True
+            if re.match(r'mul\(&?arg3, &?arg3\)$', sc):
+                coef_squared = True
+                calls = [e.name.split('::')[-1] for e in p.calls()]
+                if 'connect' in calls and 'convert_edges' in calls:
+                    cob_doubled = True
+            if sa == 'add(arg2.0, arg2.1)' and sc == 'add(arg2.1, arg2.0)':
+                swap = True
+    inst = 'SymTngBuilder::build_from_half|key, cobordism and coefficient of a cycle double together; tau swaps the halves'
+    if key_doubled and coef_squared and cob_doubled and swap:
+        rep.ok('E7b.K5-doubling', inst, 'k -> k + k, c -> c.connect(tau c), r -> r * r, (k1 + k2) -> (k2 + k1)')
+    else:
+        rep.violation('E7b.K5-doubling', inst,
+                      'build_from_half doubles key: %s, cobordism: %s, coefficient (r*r): %s, tau swap of halves: %s - all four are needed when the half tangle is glued to its mirror image' %
+                      (key_doubled, cob_doubled, coef_squared, swap), where=facts.bodies[root].where())
